@@ -164,30 +164,43 @@ def ident(F, res):
         res.add([finding("IDENT", key, where(h), "Hash reads %s but PartialEq reads %s: equal UTxOs may hash differently (or vice versa)" % (sorted(fh), sorted(fe)))])
 
 
+_KEEP = []
+
+
 def gate(F, res):
+    """For every value of TirVersion: does from_bytes (helpers of the encoding module inlined) reach a decoding call when it is
+    given that version?  Decided per variant by following only the edges that value selects at every `match version` /
+    `version == V` / `version != V` test (finite case analysis over the enum)."""
     TV = "tx3_tir::encoding::TirVersion"
-    f = F.fn("tx3_tir::encoding::from_bytes")
+    f0 = F.fn("tx3_tir::encoding::from_bytes")
+
+    def want(t, callee):
+        return callee["crate"] == "tx3_tir" and not callee.get("impl_trait") and "::encoding::" in callee["path"] and len(callee["blocks"]) <= 200
+    _KEEP.append(want)
+    f = mir.inline_calls(F, f0, want=want, depth=2)
     adt = F.adt(TV)
-    arms = e3.variant_arms(f, self_local=2)
-    w = where(f)
-    if not arms or arms[0] != TV:
-        raise BrokenCheck("from_bytes no longer matches on the version")
-    _, tmap, other = arms
-    cfg = mir.CFG(f)
-    dec = [bi for bi, t in mir.calls(f) if (t.get("callee") or "").endswith("encoding::decode_root")]
+    w = where(f0)
+    vparams = [i for i in range(1, f0["argc"] + 1) if f0["locals"][i] == TV]
+    if len(vparams) != 1:
+        raise BrokenCheck("from_bytes no longer takes one TirVersion")
+    vp = vparams[0]
+    dec = [bi for bi, t in mir.calls(f) if "from_reader" in (t.get("callee") or "") or "ciborium::de" in (t.get("callee") or "")
+           or (t.get("callee") or "").endswith("::deserialize")]
+    if not dec:
+        raise BrokenCheck("from_bytes (helpers inlined) contains no decoding call")
     # MIN_SUPPORTED_VERSION
     minv = None
-    c = F.ctfe.get("tx3_tir::encoding::MIN_SUPPORTED_VERSION")
-    if c is not None:
-        for bi, si, s in mir.stmts(c):
-            if s["rv"]["k"] == "agg" and s["rv"].get("adt") == TV:
-                minv = s["rv"]["variant"]
+    for pth, c in F.ctfe.items():
+        if c["crate"] == "tx3_tir" and "encoding" in pth and c["locals"] and c["locals"][0] == TV:
+            for bi, si, s in mir.stmts(c):
+                if s["rv"]["k"] == "agg" and s["rv"].get("adt") == TV:
+                    minv = s["rv"]["variant"]
     if minv is None:
-        raise BrokenCheck("MIN_SUPPORTED_VERSION not found")
+        raise BrokenCheck("no TirVersion constant (MIN_SUPPORTED_VERSION) found in tx3_tir::encoding")
     discr = {v["name"]: v["discr"] for v in adt["variants"]}
     for v in adt["variants"]:
-        tb = tmap.get(v["discr"], other)
-        decodes = any(cfg.dominates(tb, d) or d == tb or d in cfg.reach_from(tb) for d in dec) and tb != other or (tb == other and any(d in cfg.reach_from(other) for d in dec))
+        reach = mir.reach_under_variant(f, vp, TV, v["name"], v["discr"], discr, F=F)
+        decodes = any(d in reach for d in dec)
         key = "tx3_tir::encoding::from_bytes|version %s" % v["name"]
         if v["discr"] < discr[minv]:
             if decodes:
@@ -275,7 +288,7 @@ def run(ctx):
     gate(F, res)
     cg = CallGraph(F)
     rows = table("e1_rows")["C11"]
-    roots = ["tx3_tir::encoding::from_bytes", "tx3_tir::encoding::to_bytes", "tx3_tir::encoding::decode_root",
+    roots = ["tx3_tir::encoding::from_bytes", "tx3_tir::encoding::to_bytes"] + [p for p in ("tx3_tir::encoding::decode_root",) if p in F.fns] + [
              "<tx3_tir::encoding::TirVersion as std::convert::TryFrom<&str>>::try_from"]
     c12.panic_obligations(F, res, roots, rows, cg=cg)
     res.add([assumption("DEP", "ciborium/serde", "crates/tx3-tir/src/encoding.rs", "ciborium::from_reader returns Err (never panics/aborts) on arbitrary, truncated or deeply nested bytes: dependency behaviour, not decided here")])
